@@ -201,3 +201,24 @@ func TestDebugJ01(t *testing.T) {
 	}
 	fmt.Println("violating schedules:", found)
 }
+
+// TestDebugO02 drives "resync between the replacement's filter and bind while the pod cache lacks the pod" (development aid).
+func TestDebugO02(t *testing.T) {
+	if os.Getenv("VERIF_DEBUG_O02") == "" {
+		t.Skip()
+	}
+	topo := Topo{Pools: []PoolT{{NodeSubnets: []string{"10.49.27.0/24"}, Subnet: "10.0.70.0/24", Gateway: "10.0.70.1",
+		Ranges: [][2]uint32{{0x0a004602, 0x0a004606}}}}, Nodes: []NodeT{{Name: "n0", IP: "10.49.27.3"}}}
+	c := Case{Topo: topo, WLs: []WL{{Kind: "dp", Name: "d0", Policy: "never", Replicas: 2}}, Lag: true,
+		Ops: []Op{{K: "create"}, {K: "synclister", A: 2}, {K: "sched", B: 63}, {K: "synclister", A: 2}, {K: "delete"}, {K: "deliver"}, {K: "deliver"}, {K: "deliver"}, {K: "unbind"},
+			{K: "create", A: 1}, {K: "filter", B: 63}, {K: "resync"}, {K: "synclister", A: 2}, {K: "bind"}}}
+	r := &vcore.Rec{}
+	_, f := runHistory(c, r, &ObsC02{})
+	fmt.Println("failure:", f)
+	for _, l := range r.Trace() {
+		if len(l) > 400 {
+			l = l[:400]
+		}
+		fmt.Println(l)
+	}
+}
